@@ -234,12 +234,17 @@ type Unbalanced struct {
 // (balance, registered) pairs, balance clipped to [-4,4]; reaching the clip (an increment that
 // can repeat in a loop) is reported as unbalanced.
 func PathBalance(fl *Flow, delta func(ast.Node) (int, bool), deferredDec int) []Unbalanced {
+	return PathBalanceInit(fl, delta, deferredDec, 0)
+}
+
+// PathBalanceInit is PathBalance with an initial balance at the function entry.
+func PathBalanceInit(fl *Flow, delta func(ast.Node) (int, bool), deferredDec int, init int) []Unbalanced {
 	type st struct {
 		bal int
 		reg bool
 	}
 	in := make([]map[st]bool, len(fl.G.Blocks))
-	in[0] = map[st]bool{{0, false}: true}
+	in[0] = map[st]bool{{init, false}: true}
 	work := []int{0}
 	var out []Unbalanced
 	seenOut := map[string]bool{}
